@@ -41,6 +41,39 @@ def run(tier, seed):
                 ops = [('select', (), 0)] + [('match', sc.path_of[id(e)]) for e in sc.elements[:20]]
                 sc.add(pat, ops, namespaces=nsmap)
     scs += [sc for sc in scs2 if sc.items]
+    # a custom pseudo-class is an alias: `X:--c` with custom {':--c': BODY} designates what `X:is(BODY)` does, under every
+    # namespace map (a body without a type selector must not acquire the caller's default namespace)
+    import warnings, soupsieve as sv
+    for sc in campaign.build(rnd, 'ns', n // 3, 0, depth=1):
+        top = sc.top
+        pools = gen_selectors.pools_from_soup(top)
+        used = sorted({e.namespace for e in top.find_all(True) if getattr(e, 'namespace', None)})
+        maps = [None, {}, rnd.choice(campaign.NSMAPS)]
+        if used:
+            maps += [{'': rnd.choice(used)}, {'': rnd.choice(used), 'q': rnd.choice(used)}, {'': 'urn:nowhere', 'q': rnd.choice(used)}]
+        for _ in range(4):
+            nsmap = rnd.choice(maps)
+            prefixes = [k for k in (nsmap or {}) if k]
+            body = rnd.choice(['.' + sv.escape(rnd.choice(pools['classes'])), '[' + sv.escape(rnd.choice(pools['attrs'])) + ']', ':first-child',
+                               ':not(' + sv.escape(rnd.choice(pools['names'])) + ')', '*', sv.escape(rnd.choice(pools['names'])),
+                               ':empty, [' + sv.escape(rnd.choice(pools['attrs'])) + ']', ':nth-child(odd)', ':root'])
+            X = rnd.choice(['', '*|*', '*', sv.escape(rnd.choice(pools['names']))] + [pf + '|*' for pf in prefixes])
+            with warnings.catch_warnings():
+                warnings.simplefilter('ignore')
+                try:
+                    a_ = sv.select(f'{X}:--c', top, namespaces=nsmap, custom={':--c': body})
+                    b_ = sv.select(f'{X}:is({body})', top, namespaces=nsmap)
+                    c_ = sv.select(f'{X}:--d', top, namespaces=nsmap, custom={':--d': ':--c', ':--c': body})
+                except Exception as ex:
+                    ck.notes['alias_skipped'] = ck.notes.get('alias_skipped', 0) + 1
+                    continue
+            ck.count(('alias', nsmap is None, bool(nsmap) and '' in nsmap, len(b_) > 0))
+            if [id(e) for e in a_] != [id(e) for e in b_] or [id(e) for e in c_] != [id(e) for e in b_]:
+                ck.violation(f'{X}:--c with custom {{":--c": {body!r}}} selects {len(a_)} element(s) (through a second alias: {len(c_)}), '
+                             f'{X}:is({body}) selects {len(b_)} (namespaces {nsmap!r})',
+                             {'pattern_alias': f'{X}:--c', 'custom': {':--c': body}, 'pattern_is': f'{X}:is({body})', 'namespaces': nsmap,
+                              'markup': matchcheck.markup_of(sc), 'alias_selected': matchcheck.paths_of(sc, a_),
+                              'is_selected': matchcheck.paths_of(sc, b_)})
     recs = matchcheck.run_corr(ck, scs)
     C01.oracle(ck, scs, recs)
     return ck.finish(
